@@ -185,7 +185,7 @@ func run(c *lib.Ctx) error {
 		return err
 	}
 
-	// ---- all TLC work runs concurrently (8 workers in total)
+	// ---- the TLC work runs as 4 concurrent processes with one worker each (the two model runs are chained)
 	nBig := c.Pick(10, 120)
 	K, D := c.Pick(3, 6), c.Pick(3, 4)
 	maxLen := 3
@@ -197,7 +197,7 @@ func run(c *lib.Ctx) error {
 	// development aid: VERIF_C11_ONLY=small|big|random|model restricts the run to one part
 	only := os.Getenv("VERIF_C11_ONLY")
 	want := func(part string) bool { return only == "" || only == part }
-	lib.Parallel(5, 5, func(i int) {
+	task := func(i int) {
 		if !want([]string{"model", "model", "small", "big", "random"}[i]) {
 			return
 		}
@@ -210,28 +210,36 @@ func run(c *lib.Ctx) error {
 			}
 			errs[i] = err
 		case 1: // M: internal theorems of Arith.tla
-			r, err := c.TLC("MCArithLaws", lib.TLCRun{Dir: dir, Module: "MCArithLaws", Workers: c.Pick(1, 2), Timeout: 14 * time.Minute,
+			r, err := c.TLC("MCArithLaws", lib.TLCRun{Dir: dir, Module: "MCArithLaws", Workers: 1, Timeout: 14 * time.Minute,
 				Files: map[string][]byte{"MCArithLaws.cfg": cfg(fmt.Sprintf("CONSTANT K = %d\nCONSTANT D = %d\n", K, D), "Unary", "Binary", "Ternary")}})
 			if err == nil && r.ErrKind != "" {
 				err = lib.Infra("an internal theorem of Arith.tla fails in the model: %s %s\n%s", r.ErrName, r.Err, r.ErrTrace)
 			}
 			errs[i] = err
 		case 2: // M + G: small pool, exhaustive
-			r, err := c.TLC("MCArith", lib.TLCRun{Dir: dir, Module: "MCArith", Workers: 2, Timeout: 14 * time.Minute,
+			r, err := c.TLC("MCArith", lib.TLCRun{Dir: dir, Module: "MCArith", Workers: 1, Timeout: 14 * time.Minute,
 				Files: map[string][]byte{"MCArith.cfg": cfg(fmt.Sprintf("CONSTANT MaxLen = %d\nCONSTANT AgreeLen = %d\n", maxLen, agree), "BackEndsAgree", "Canonical", "Emit")}})
 			if err == nil && r.ErrKind != "" {
 				err = lib.Infra("Arith.tla inconsistent on the small pool: %s %s\n%s", r.ErrName, r.Err, r.ErrTrace)
 			}
 			rSmall, errs[i] = r, err
 		case 3: // G: the 2^63 boundary, BigNat
-			r, err := c.TLC("MCArithBig", lib.TLCRun{Dir: dir, Module: "MCArithBig", Workers: 2, Timeout: 14 * time.Minute,
+			r, err := c.TLC("MCArithBig", lib.TLCRun{Dir: dir, Module: "MCArithBig", Workers: c.Pick(1, 2), Timeout: 14 * time.Minute,
 				Files: map[string][]byte{"MCArithBig.cfg": cfg(fmt.Sprintf("CONSTANT L = %d\n", L), "WellFormed", "Emit")}})
 			if err == nil && r.ErrKind != "" {
 				err = lib.Infra("Arith.tla over BigNat prescribes a non-canonical value: %s %s\n%s", r.ErrName, r.Err, r.ErrTrace)
 			}
 			rBig, errs[i] = r, err
 		case 4: // V, judging half
-			bad, errs[i] = lib.Judge(c, "JudgeArith", dir, "JudgeArith", cases, 2, 14*time.Minute)
+			bad, errs[i] = lib.Judge(c, "JudgeArith", dir, "JudgeArith", cases, c.Pick(1, 2), 14*time.Minute)
+		}
+	}
+	lib.Parallel(4, 4, func(i int) {
+		if i == 0 {
+			task(0)
+			task(1)
+		} else {
+			task(i + 1)
 		}
 	})
 	for _, e := range errs {
